@@ -172,7 +172,7 @@ impl Cell {
         if cursor.col.saturating_add(cell_size.width) <= max_width {
             // enough space to put cell
             let pos = *cursor;
-            cursor.col += cell_size.width;
+            cursor.col = cursor.col.saturating_add(cell_size.width);
             size.width = max(size.width, cursor.col);
             size.height = max(size.height, cursor.row.saturating_add(cell_size.height));
             Some(pos)
